@@ -79,7 +79,7 @@ def gen(stream, rng, i, cfg):
         inner = formgen.g3_tree(rng, e0, rng.choice([0, 1, 2]))
         if rng.random() < 0.6:
             inner = formgen.g4_damage(rng, inner)
-        act = {'a': 'nested', 'slot': 0, 'f': inner, 'maxdepth': 1, 'use': rng.random() < 0.7}
+        act = {'a': 'nested' if rng.random() < 0.7 else 'nested_thread', 'slot': 0, 'f': inner, 'maxdepth': 1, 'use': rng.random() < 0.7}
         if rng.random() < 0.5:
             slot['functions']['REENTER'] = [act]
         else:
